@@ -11,6 +11,16 @@ from smtlint.main import PROPERTIES  # noqa: E402
 TRUST = 'trusts rustc nightly MIR (mir-opt-level=0) as the meaning of the source, the std summaries listed in the evidence, and the spec tables in smtlint/rules; '
 
 CLAIMS = {
+    'C06': dict(
+        text='static: the index guards of str_at/str_substr/str_indexof/str_len/str_concat and the wrappers are decided by abstract interpretation on all paths in both build configurations, results compared as sequence contents with the SMT-LIB table; naive_search is proved to return the leftmost occurrence at or after the start index by loop invariants over ghost predicates (match-so-far, no-earlier-occurrence) inferred as an inductive fixpoint; str_replace/str_replace_all are checked by splice/step obligations against the search result; vector_prefix/suffix by a prefix-match ghost predicate. No panic other than the documented over-length panic, no wrapping arithmetic or truncating cast.',
+        note=TRUST + 'assumes the SmtString invariant (length <= i32::MAX, elements <= MAX_CHAR) for arguments; ghost-predicate axioms are the definitional unfoldings stated in smtlint/rules/c06.py',
+        tech='abstract interpretation of MIR with inferred inductive loop invariants (conjunctions of difference constraints and ghost predicates), per-leaf entailment against the SMT-LIB spec',
+        ref='5.C06'),
+    'C11': dict(
+        text='static: interval_cover and class_of_char are interpreted with inferred binary-search invariants; every leaf must entail the set-theoretic meaning of the class it returns for a generic interval index under the partition invariant (sorted, disjoint); comp_witness maintenance in push/from_set, empty_complement, num_classes, valid_class_id, pick_in_class, both iterators and the class_of_set/good_char_set mappings are decided per leaf in both configurations.',
+        note=TRUST + 'assumes the CharPartition invariant for `self` (sorted disjoint well-formed intervals, witness <= next start) and documented preconditions of push',
+        tech='abstract interpretation of MIR with inferred loop invariants, accessor-term axioms for the partition, per-leaf entailment',
+        ref='5.C11'),
     'C15': dict(
         text='static: every LoopRange method is abstractly interpreted on all paths in both build configurations (ranges split into finite/infinite cases); each leaf must entail the set-level spec of the returned range (start, finiteness, end as normalised polynomials), panics are allowed exactly in the documented overflow region, nothing may wrap; right_mul_is_exact must equal the interval criterion whose correctness is argued on paper in the rule header.',
         note=TRUST + 'assumes start<=end for finite ranges; product monotonicity is the only non-linear lemma used by the decision procedure',
